@@ -1692,6 +1692,14 @@ func checkCrash(p *plan, ck *ckpt, ref *reference, dir string, i int) (out outco
 		if hx != h0 && hx != h1 {
 			return out, viol(sig("hasroot"), "%s: HasRoot(%s) = %v; before O %v, after O %v", tag, key, hx, h0, h1)
 		}
+		// the two ways of asking whether a root exists agree (callers such as the storage worker decide from HasRoot
+		// whether an operation still has to be repeated): a root that "exists" is listed for its version and vice versa
+		if c, rt := p.all[key], p.all[key].root(); !rt.Hash.IsEmpty() {
+			listed := inSet(sx.Roots[c.Ver], rootKey(c.root()))
+			if l0, l1 := inSet(ref.s0.Roots[c.Ver], rootKey(c.root())), inSet(ref.s1.Roots[c.Ver], rootKey(c.root())); hx != listed && ref.s0.Has[key] == l0 && ref.s1.Has[key] == l1 {
+				return out, viol(sig("hasroot-vs-listing"), "%s: HasRoot(%s) = %v but GetRootsForVersion(%d) lists it: %v (the two agree before O and after an uninterrupted O)", tag, key, hx, c.Ver, listed)
+			}
+		}
 	}
 	d0, d1 := diffStates(sx, ref.s0, p.maxVer), diffStates(sx, ref.s1, p.maxVer)
 	switch {
